@@ -151,6 +151,13 @@ class Interp(container.ContainerInterp):
         if raised is None:
             if must_raise:
                 self.ctx.fail(f"{cause}/{path}/not-refused", f"{path} with {cause} did not raise (state: {self.state_class()}, N={self.N}, {len(self.model)} live)")
+            elif after != before:
+                # a request that is legitimately possible in this state (e.g. replacing the block behind the hole closes the hole):
+                # the file moved on and there is no model for it - stop this history here
+                from ..core import Abandon
+
+                self.ctx.hist["hole-state-left-by-a-successful-call"] += 1
+                raise Abandon("state changed")
             return
         if after != before:
             k = next((i for i in range(min(len(before), len(after))) if before[i] != after[i]), min(len(before), len(after)))
@@ -255,14 +262,14 @@ class Interp(container.ContainerInterp):
             self.refused("absent-type", "remove_block", lambda: t.remove_block(BlockType(code)))
         # 9. unused slot between live blocks
         if self.hole is not None:
-            for name in live_writable:
-                blk = specs.build(container_min(name))
-                self.refused("unused-slot-between-live-blocks", "replace_block", lambda: t.replace_block(blk), must_raise=False)
-                if name in container.SETTERS:
-                    self.refused("unused-slot-between-live-blocks", "setter", lambda: setattr(t, container.SETTERS[name], blk), must_raise=False)
             for name in absent[:4]:
                 blk = specs.build(container_min(name))
                 self.refused("unused-slot-between-live-blocks", "add_block", lambda: t.add_block(blk), must_raise=False)
+                if name in container.SETTERS:
+                    self.refused("unused-slot-between-live-blocks", "setter", lambda: setattr(t, container.SETTERS[name], blk), must_raise=False)
+            for name in live_writable:
+                blk = specs.build(container_min(name))
+                self.refused("unused-slot-between-live-blocks", "replace_block", lambda: t.replace_block(blk), must_raise=False)
                 if name in container.SETTERS:
                     self.refused("unused-slot-between-live-blocks", "setter", lambda: setattr(t, container.SETTERS[name], blk), must_raise=False)
 
@@ -301,7 +308,9 @@ def inits():
             # a file with an unused slot between live blocks: needs >= 2 live blocks and a spare slot
             init = copy.deepcopy(draw(container.init_images(allow_new=False, min_live=3)))
             if len(init["blocks"]) >= 2:
-                init["N"] = max(init["N"], len(init["blocks"]) + draw(st.integers(1, 2)))
+                # half of the time the hole is the ONLY unused slot (nothing unused after the last live block)
+                spare = draw(st.sampled_from([1, 1, 2, 3]))
+                init["N"] = len(init["blocks"]) + spare if draw(st.booleans()) else max(init["N"], len(init["blocks"]) + spare)
                 init["hole"] = draw(st.integers(0, 10))
             return init
         return copy.deepcopy(draw(container.init_images()))
